@@ -406,6 +406,8 @@ func main() {
 	})
 	// ---- facts
 	extractFacts()
+	extractWiring()
+	extractHandOver()
 	if len(failures) > 0 {
 		for _, f := range failures {
 			fmt.Fprintln(os.Stderr, "extract:", f)
